@@ -20,12 +20,12 @@ Proof. exact nonconforming_has_result. Qed.
 Print Assumptions C12_nonempty.
 
 (* Non-vacuity: two failing constraints; the aborted run keeps the first result only. *)
-Definition S : shape := {| sid := IRI 100; spath := None; deact := false; ssev := t_Violation;
+Definition S : shape := {| sid := IRI 100; spath := None; deact := false; ssev := t_Violation; smsgs := [];
    stargets := {| t_nodes := [IRI 7]; t_classes := []; t_implicit := false; t_subjects_of := []; t_objects_of := [] |};
    scomps := [CLeaf (LIn []); CLeaf (LHasValue [IRI 8])] |}.
 Definition ofull := {| abort := false; allow_infos := false; allow_warnings := false; max_depth := 15; focus_filter := [] |}.
 Example C12_nonvacuous :
-  validate_impl0 ofull [] [] [S] = Ok (false, [VR (IRI 7) (Some (IRI 7)) None sh_InConstraintComponent (IRI 100) t_Violation [];
-                                              VR (IRI 7) None None sh_HasValueConstraintComponent (IRI 100) t_Violation []])
-  /\ validate_impl0 (with_abort ofull) [] [] [S] = Ok (false, [VR (IRI 7) (Some (IRI 7)) None sh_InConstraintComponent (IRI 100) t_Violation []]).
+  validate_impl0 ofull [] [] [S] = Ok (false, [VR (IRI 7) (Some (IRI 7)) None sh_InConstraintComponent (IRI 100) t_Violation [] [];
+                                              VR (IRI 7) None None sh_HasValueConstraintComponent (IRI 100) t_Violation [] []])
+  /\ validate_impl0 (with_abort ofull) [] [] [S] = Ok (false, [VR (IRI 7) (Some (IRI 7)) None sh_InConstraintComponent (IRI 100) t_Violation [] []]).
 Proof. vm_compute. split; reflexivity. Qed.
